@@ -185,7 +185,7 @@ def TitleTok (l : Str) (ty : Kind) (kws : List Str) (t' : Token) : Prop :=
     t'.keyword = some kw ∧ t'.col = some (lineIndent l + 1) ∧ t'.mtype = some ty ∧
     t'.text = some (rstripCRLF (strip ((l.drop (lineIndent l)).drop (kw.length + 1))))
 
-theorem matchTitle_tok (μ : MState) (t : Token) (l : Str) (ht : t.line = some l) (ty : Kind)
+theorem lmatchTitle_tok (μ : MState) (t : Token) (l : Str) (ht : t.line = some l) (ty : Kind)
     (kws : List Str) (t' : Token) (h : matchTitle μ t l ty kws = some t') :
     TitleTok l ty kws t' := by
   obtain ⟨kw, hmem, hs, rfl⟩ := matchTitle_spec μ t l ty kws t' h
@@ -216,29 +216,29 @@ theorem title_col (D : List Dialect) (k : Kind) (μ : MState) (t : Token) (l : S
   · simp only [matchLine] at hm ⊢
     cases h : matchTitle μ t l .FeatureLine μ.dialect.feature with
     | none => simp [h] at hm
-    | some t' => exact matchTitle_tok μ t l ht _ _ t' h
+    | some t' => exact lmatchTitle_tok μ t l ht _ _ t' h
   · simp only [matchLine] at hm ⊢
     cases h : matchTitle μ t l .RuleLine μ.dialect.rule with
     | none => simp [h] at hm
-    | some t' => exact matchTitle_tok μ t l ht _ _ t' h
+    | some t' => exact lmatchTitle_tok μ t l ht _ _ t' h
   · simp only [matchLine] at hm ⊢
     cases h : matchTitle μ t l .BackgroundLine μ.dialect.background with
     | none => simp [h] at hm
-    | some t' => exact matchTitle_tok μ t l ht _ _ t' h
+    | some t' => exact lmatchTitle_tok μ t l ht _ _ t' h
   · simp only [matchLine] at hm ⊢
     cases h : matchTitle μ t l .ScenarioLine μ.dialect.scenario with
     | some t' =>
-      exact (matchTitle_tok μ t l ht _ _ t' h).mono (fun k hk => by simp [titleKws, hk])
+      exact (lmatchTitle_tok μ t l ht _ _ t' h).mono (fun k hk => by simp [titleKws, hk])
     | none =>
       simp only [h] at hm
       cases h2 : matchTitle μ t l .ScenarioLine μ.dialect.scenarioOutline with
       | none => simp [h2] at hm
       | some t' =>
-        exact (matchTitle_tok μ t l ht _ _ t' h2).mono (fun k hk => by simp [titleKws, hk])
+        exact (lmatchTitle_tok μ t l ht _ _ t' h2).mono (fun k hk => by simp [titleKws, hk])
   · simp only [matchLine] at hm ⊢
     cases h : matchTitle μ t l .ExamplesLine μ.dialect.examples with
     | none => simp [h] at hm
-    | some t' => exact matchTitle_tok μ t l ht _ _ t' h
+    | some t' => exact lmatchTitle_tok μ t l ht _ _ t' h
 
 theorem title_col_list (D : List Dialect) (k : Kind) (kws : List Str) (μ : MState) (t : Token) (l : Str)
     (ht : t.line = some l)
